@@ -32,6 +32,7 @@ type schedule struct {
 	Suite     int     `json:"suite"`
 	Dir       string  `json:"dir"`
 	Plan      string  `json:"plan"` // "small" | "big"
+	RcvCW     bool    `json:"rcv_closewrite"` // the receiver has half-closed (CloseWrite) before the records arrive
 	ID        int     `json:"id"`
 }
 
@@ -356,6 +357,12 @@ func runSchedule(s *schedule) (obs c07Obs, err error) {
 				return obs, fmt.Errorf("unknown alien %q", o.Kind)
 			}
 			wire = append(wire[:i], append([]wrec{{a, 0}}, wire[i:]...)...)
+		}
+	}
+	if s.RcvCW {
+		// the receiving application has finished sending: its close_notify is out, its read side must behave as before
+		if e := rcv.CloseWrite(); e != nil {
+			return obs, fmt.Errorf("CloseWrite: %v", e)
 		}
 	}
 	// the sender keeps reading what comes back (alerts), as a live application would
